@@ -26,6 +26,10 @@ type PropSpec struct {
 	Pkgs        []string `json:"pkgs"`
 	Units       []string `json:"units"`        // regexps over contract keys and lemma names (roots)
 	ThoroughAdd []string `json:"thorough_add"` // extra roots in the thorough tier
+	PkgsThoroughAdd []string `json:"pkgs_thorough_add"` // extra packages in the thorough tier
+	ExcludeQuick []string `json:"exclude_quick"` // roots left to the thorough tier
+	Agree       int      `json:"agree"`        // solvers that must agree in the thorough tier (default 2)
+	ListBound   int      `json:"listbound"`    // element bound of repeated fields in generated-code harnesses
 	Level       string   `json:"level"`
 	Explanation string   `json:"explanation"`
 	Assumptions []string `json:"assumptions"`
@@ -107,10 +111,13 @@ func checkMain(args []string) int {
 	}
 	tmp, _ := os.MkdirTemp("", "gocv-")
 	defer os.RemoveAll(tmp)
-	so := solveOpts{timeoutS: 60, agree: 1, tmp: tmp, jobs: 6}
+	so := solveOpts{timeoutS: 60, agree: 1, tmp: tmp, jobs: 14}
 	if tier == "thorough" {
 		so.timeoutS = 180
 		so.agree = 2
+		if ps.Agree > 0 {
+			so.agree = ps.Agree
+		}
 	}
 	violations := 0
 	report := func(r *Replay) {
@@ -128,6 +135,12 @@ func checkMain(args []string) int {
 		} else {
 			fmt.Printf("VIOLATION property=%s replay=%s\n", prop, p)
 		}
+	}
+	if tier == "thorough" {
+		ps.Pkgs = append(append([]string{}, ps.Pkgs...), ps.PkgsThoroughAdd...)
+	}
+	if ps.ListBound > 0 {
+		listBoundDefault = ps.ListBound
 	}
 	w, err := LoadWorld(repo, filepath.Join(root, "spec"), ps.Pkgs, nil)
 	if err != nil {
@@ -153,7 +166,18 @@ func checkMain(args []string) int {
 	for _, r := range roots {
 		res = append(res, regexp.MustCompile(r))
 	}
+	var excl []*regexp.Regexp
+	if tier != "thorough" {
+		for _, r := range ps.ExcludeQuick {
+			excl = append(excl, regexp.MustCompile(r))
+		}
+	}
 	match := func(name string) bool {
+		for _, r := range excl {
+			if r.MatchString(name) {
+				return false
+			}
+		}
 		for _, r := range res {
 			if r.MatchString(name) {
 				return true
@@ -278,6 +302,13 @@ func checkMain(args []string) int {
 func repoBuilds(repo string, pkgs []string) bool {
 	args := []string{"build"}
 	for _, p := range pkgs {
+		if strings.HasPrefix(p, "mod:") {
+			continue
+		}
+		if strings.HasPrefix(p, "gen:") {
+			// generated-code packages exist only in the overlay: what must build is the plug-in
+			p = "cmd/protoc-gen-fastmarshal"
+		}
 		if p == "." {
 			args = append(args, ".")
 		} else {
